@@ -68,6 +68,9 @@ type c07Witness struct {
 var c07Witnesses = []c07Witness{
 	{`a*`, "baaab", true}, {`a*`, "baaab", false}, {`a`, "b", false}, {`a`, "b", true}, {`a*`, "", true}, {`a*`, "", false},
 	{`\b`, "ab c", true}, {`(?<=a)`, "aab", true}, {`a|`, "ba", true},
+	// an optional group that takes part in one match and not in the next: the capture state a scan starts from must be
+	// empty whichever call runs it (find-all reuses the runner's Match)
+	{`(a)?b\1`, "abaxba", false}, {`(?:(a)|b)(?(1)c|d)`, "ac-bd-ac-bc", false}, {`\1b(a)?`, "abxaba", true}, {`(?:(a)|(b))(?(2)x|y)`, "ay-bx-ay-by-bx", false}, {`(?<o>a)?(?<-o>b)?c`, "abc-c-bc-ac", false},
 	// groups kept alive only by a back-reference carrying a modifier bit (IgnoreCase, right-to-left, inside a lookbehind):
 	// the find-all calls run the capture-pruned program and must still agree with the FindNextMatch chain
 	{`(?i)(\w)\1`, "aAbBcd", false}, {`(?<=\1(a))x`, "aaxax", false}, {`\1(a)`, "baab", true}, {`(?i)(a)\1`, "aaaa", false}, {`(?i)(a)\1`, "aAAa", true}, {`(a)(?<=\1)b?`, "aab", false},
